@@ -15,11 +15,12 @@ def parseStages (s : String) : List (List Layer) :=
 
 def showKind : Kind → String
   | .allreduce => "ar" | .broadcast => "bc" | .allgather => "ag" | .reducescatter => "rs"
+  | .gatherobj => "ao" | .barrier => "ba"
 
 def showNAct (a : NAct) : String :=
   showKind a.kind ++ ":" ++ showNats a.members ++ ":" ++ toString a.elems ++ ":" ++ toString a.root
 
-/-- `neoxs pp= dp= mp= stages= tokens= fus= ius= bucketed= cap= es= sym= cube= hook= accum= ops=f,s,…`
+/-- `neoxs pp= dp= mp= stages= tokens= fus= ius= bucketed= cap= es= sym= cube= hook= accum= ops=f,s,vm,vd,lm,ld,bm,…`
     → `r0=<issue>;<issue>… r1=…` (per-rank projections of the global script) -/
 def neoxScriptOp (args : List String) : String :=
   let c : NeoxS.Cfg := {
@@ -29,7 +30,10 @@ def neoxScriptOp (args : List String) : String :=
     cap := natArg args "cap", esize := natArg args "es", sym := boolArg args "sym", cube := boolArg args "cube",
     hook := boolArg args "hook", accum := natArg args "accum" }
   let ops := (splitOnC (argOf args "ops") ',').filterMap fun o =>
-    if o == "f" then some Op.train else if o == "s" then some Op.step else none
+    if o == "f" then some Op.train else if o == "s" then some Op.step
+    else if o == "vm" then some (Op.save false) else if o == "vd" then some (Op.save true)
+    else if o == "lm" then some (Op.load false true) else if o == "ld" then some (Op.load true true)
+    else if o == "bm" then some (Op.load false false) else none
   let s := run c ops
   joinWith " " ((List.range c.t.world).map fun r =>
     "r" ++ toString r ++ "=" ++ joinWith ";" ((project r s.acts).map showNAct))
